@@ -125,7 +125,7 @@ def hx(x):
     return ('-%x' % -x) if x < 0 else ('%x' % x)
 
 def I(s):
-    return int(s, 16)
+    return 0 if s == '-' else int(s, 16)
 
 def shex(b):
     """hex-encode a bytes/str for the 's' token"""
